@@ -283,10 +283,16 @@ def case_sampling_escalation(rep):
             # (a) redraw from scratch
             cards = _mk_cards(pat, nums)
             cons = {c: Contest(id=c, sample_size=sizes[c]) for c in contests}
-            r1 = list(CVR.consistent_sampling(cvr_list=cards, contests=cons))
-            for c in contests:
-                cons[c].sample_size = sizes2[c]
-            r2 = list(CVR.consistent_sampling(cvr_list=cards, contests=cons))
+            try:
+                r1 = list(CVR.consistent_sampling(cvr_list=cards, contests=cons))
+                for c in contests:
+                    cons[c].sample_size = sizes2[c]
+                r2 = list(CVR.consistent_sampling(cvr_list=cards, contests=cons))
+            except Exception as ex:
+                rep.fail("redraw: does not raise", inp, got=type(ex).__name__ + ": " + str(ex)[:80])
+                continue
+            if r2 != exp2:
+                rep.fail("redraw: the later round is the closed-form selection for the new sizes (same card list, flags from round 1 set)", inp, got=r2, expected=exp2)
             if not set(r1) <= set(r2):
                 rep.fail("redraw: the later round's cards contain the earlier round's", inp, got={"r1": r1, "r2": r2})
             for c in contests:
@@ -297,7 +303,11 @@ def case_sampling_escalation(rep):
             # (b) continue from the previously selected cards
             cards = _mk_cards(pat, nums)
             cons = {c: Contest(id=c, sample_size=sizes[c]) for c in contests}
-            r1 = list(CVR.consistent_sampling(cvr_list=cards, contests=cons))
+            try:
+                r1 = list(CVR.consistent_sampling(cvr_list=cards, contests=cons))
+            except Exception as ex:
+                rep.fail("first round does not raise", inp, got=type(ex).__name__ + ": " + str(ex)[:80])
+                continue
             for c in contests:
                 cons[c].sample_size = sizes2[c]
             skipped = False
@@ -566,11 +576,11 @@ def case_manifests(rep):
             man = pd.DataFrame({"Tray #": list(range(1, nb + 1)), "Tabulator Number": [f"T{b}" for b in range(nb)],
                                 "Batch Number": list(range(10, 10 + nb)), "Total Ballots": list(sizes),
                                 "VBMCart.Cart number": list(range(1, nb + 1))})
-            for extra in (0, 2):
-                inp = {"vendor": "Dominion", "sizes": sizes, "max_cards": total + extra}
+            for extra, ncvr in ((0, total), (2, total), (2, max(total - 1, 0)), (1, 0)):
+                inp = {"vendor": "Dominion", "sizes": sizes, "max_cards": total + extra, "n_cvrs": ncvr}
                 rep.case(inp)
                 try:
-                    m2, mcards, ph = Dominion.prep_manifest(man.copy(), total + extra, total)
+                    m2, mcards, ph = Dominion.prep_manifest(man.copy(), total + extra, ncvr)
                 except Exception as ex:
                     rep.fail("prep_manifest does not raise for manifest <= bound", inp, got=type(ex).__name__ + ": " + str(ex)[:80])
                     continue
@@ -619,11 +629,11 @@ def case_manifests(rep):
             # ---------- Hart (0-based) ----------
             hman = pd.DataFrame({"Container": list(range(nb)), "Tabulator": [f"T{b}" for b in range(nb)],
                                  "Batch Name": [f"B{b}" for b in range(nb)], "Number of Ballots": list(sizes)})
-            for extra in (0, 2):
-                inp = {"vendor": "Hart", "sizes": sizes, "max_cards": total + extra}
+            for extra, ncvr in ((0, total), (2, total), (2, max(total - 1, 0)), (1, 0)):
+                inp = {"vendor": "Hart", "sizes": sizes, "max_cards": total + extra, "n_cvrs": ncvr}
                 rep.case(inp)
                 try:
-                    m2, mcards, ph = Hart.prep_manifest(hman.copy(), total + extra, total)
+                    m2, mcards, ph = Hart.prep_manifest(hman.copy(), total + extra, ncvr)
                 except Exception as ex:
                     rep.fail("prep_manifest does not raise for manifest <= bound", inp, got=type(ex).__name__ + ": " + str(ex)[:80])
                     continue
@@ -1039,3 +1049,114 @@ def case_raire(rep):
                                 rep.fail("largest difficulty of the returned set = the minimum over sufficient sets of true assertions (zero gap)", inp,
                                          got=worst, expected=opt)
     rep.sample({"candidates": ["A", "B", "C"], "ballots": [["A", "B"], ["A"], ["B", "A"], ["C", "A"]], "winner": "A", "difficulty": "bp"})
+
+
+
+def case_escalation_pvalues(rep):
+    """C10: data extended by new observations => every assertion's measured risk is non-increasing; confirmed stays confirmed"""
+    from shangrla.core.NonnegMean import NonnegMean
+    from shangrla.core.Audit import Assertion, Assorter, Contest, CVR
+    rep.exhaustive = False
+    k = 1500 if thorough(rep) else 400
+    rep.bound = f"{k} random samples of length 2..14 over {{0,.25,.5,.75,1}} (and over [0,u] for comparison-like u), N in {{len..40}}, cut into 2-3 " \
+                "rounds; tests alpha_mart x {shrink_trunc (f in {0,.5}), fixed alternative (inside its range)}, betting_mart x {agrapa, fixed bet}, " \
+                "kaplan_markov, kaplan_wald, kaplan_kolmogorov (g=.1); plus set_p_values with a sticky proved flag"
+    rng = rep.rng
+    configs = [
+        ("alpha/shrink_trunc f=0", lambda N: NonnegMean(test=NonnegMean.alpha_mart, estim=NonnegMean.shrink_trunc, u=1, N=N, t=.5, eta=.7)),
+        ("alpha/shrink_trunc f=.5", lambda N: NonnegMean(test=NonnegMean.alpha_mart, estim=NonnegMean.shrink_trunc, u=1, N=N, t=.5, eta=.7, f=.5, d=5)),
+        ("betting/agrapa", lambda N: NonnegMean(test=NonnegMean.betting_mart, bet=NonnegMean.agrapa, u=1, N=N, t=.5, lam=.6, c_grapa_0=.5, c_grapa_max=.9, c_grapa_grow=1)),
+        ("betting/fixed_bet", lambda N: NonnegMean(test=NonnegMean.betting_mart, bet=NonnegMean.fixed_bet, u=1, N=N, t=.5, lam=.75)),
+        ("kaplan_markov", lambda N: NonnegMean(test=NonnegMean.kaplan_markov, u=1, N=np.inf, t=.5, g=.1)),
+        ("kaplan_wald", lambda N: NonnegMean(test=NonnegMean.kaplan_wald, u=1, N=np.inf, t=.5, g=.1)),
+        ("kaplan_kolmogorov", lambda N: NonnegMean(test=NonnegMean.kaplan_kolmogorov, u=1, N=N, t=.5, g=.1)),
+    ]
+    for _ in range(k):
+        L = rng.randint(2, 14)
+        x = [rng.choice([0, .25, .5, .75, 1, 1, .5]) for _ in range(L)]
+        if rng.random() < .3:
+            x = [round(rng.random(), 3) for _ in range(L)]
+        N = rng.randint(L, 40)
+        cuts = sorted(rng.sample(range(1, L), min(L - 1, rng.randint(1, 2)))) + [L]
+        for name, mk in configs:
+            inp = {"config": name, "N": N, "x": x, "rounds": cuts}
+            rep.case((name, N, tuple(x), tuple(cuts)))
+            prev = None
+            try:
+                for c in cuts:
+                    p = float(mk(N).test(np.array(x[:c]))[0])
+                    if prev is not None and not (p <= prev + 1e-12):
+                        # the agrapa NaN corner (K3) makes p jump to 1: recorded finding, not an escalation defect
+                        known = "K3" if ("agrapa" in name and any(abs(v - .5) < 1e-12 for v in x)) else None
+                        rep.fail("measured risk is non-increasing from round to round", inp, got=[prev, p], known=known)
+                        break
+                    prev = p
+            except Exception as ex:
+                rep.fail("tests do not raise on extended data", inp, got=type(ex).__name__ + ": " + str(ex)[:80])
+    # confirmed stays confirmed through set_p_values
+    for _ in range(200 if thorough(rep) else 60):
+        con = Contest(id="c", risk_limit=0.05, cards=50, candidates=["A", "B"], winner=["A"], audit_type="POLLING")
+        asns = Assertion.make_plurality_assertions(con, ["A"], ["B"], test=NonnegMean.alpha_mart, estim=NonnegMean.shrink_trunc, test_kwargs={"eta": .7})
+        con.assertions = asns
+        a = asns["A v B"]
+        a.margin = .2
+        votes = [rng.choice(["A", "A", "A", "B", None]) for _ in range(rng.randint(4, 30))]
+        mv = [CVR(id=str(i), votes={"c": ({v: 1} if v else {})}) for i, v in enumerate(votes)]
+        was = False
+        for c in sorted(rng.sample(range(1, len(mv) + 1), min(3, len(mv)))):
+            Assertion.set_p_values({"c": con}, mv[:c], None)
+            rep.case(("sticky", tuple(votes), c))
+            if was and not a.proved:
+                rep.fail("an assertion once confirmed stays confirmed", {"votes": votes, "round_end": c})
+            was = was or bool(a.proved)
+    rep.sample({"config": "alpha/shrink_trunc f=.5", "N": 20, "x": [1, .5, 1, 1, 0, 1], "rounds": [2, 4, 6]})
+
+
+def case_audit_find_sample_size(rep):
+    """C16: at the audit level each contest's estimate is the largest among its own unconfirmed assertions"""
+    from shangrla.core.Audit import Audit, Stratum, Contest, CVR
+    rep.bound = "2-3 contests x 1-3 stub assertions with estimates in {3, 17, 60}, every proved/unproved pattern; style off"
+    sizes = (3, 17, 60)
+    combos = []
+    for shape in itertools.product((1, 2), repeat=2):
+        for est in itertools.product(sizes, repeat=sum(shape)):
+            for proved in itertools.product((False, True), repeat=sum(shape)):
+                combos.append((shape, est, proved))
+    for _ in range(1500 if thorough(rep) else 400):
+        shape = tuple(rep.rng.randint(1, 3) for _ in range(3))
+        combos.append((shape, tuple(rep.rng.choice(sizes) for _ in range(sum(shape))), tuple(rep.rng.random() < .3 for _ in range(sum(shape)))))
+    if True:
+        if True:
+            if True:
+                for shape, est, proved in combos:
+                    audit = Audit()
+                    audit.strata = {"s": Stratum(use_style=False, max_cards=1000)}
+                    audit.reps, audit.quantile, audit.sim_seed, audit.error_rate_1, audit.error_rate_2 = None, .5, 1, 0, 0
+                    contests, k, exp = {}, 0, {}
+                    for ci, na in enumerate(shape):
+                        con = Contest(id=f"c{ci}", cards=1000, audit_type="POLLING")
+                        con.assertions = {}
+                        exp[con.id] = 0
+                        for ai in range(na):
+                            a = _Rec()
+                            a.proved = proved[k]
+                            a.find_sample_size = (lambda s: (lambda **kw: s))(est[k])
+                            a.mvrs_to_data = lambda m, c: (None, 1)
+                            if not proved[k]:
+                                exp[con.id] = max(exp[con.id], est[k])
+                            con.assertions[f"a{ai}"] = a
+                            k += 1
+                        contests[con.id] = con
+                    inp = {"shape": shape, "estimates": est, "proved": proved}
+                    rep.case(inp)
+                    try:
+                        total = audit.find_sample_size(contests, cvrs=None, mvr_sample=[], cvr_sample=[])
+                    except Exception as ex:
+                        rep.fail("Audit.find_sample_size does not raise", inp, got=type(ex).__name__ + ": " + str(ex)[:80])
+                        continue
+                    got = {c: contests[c].sample_size for c in contests}
+                    if got != exp:
+                        rep.fail("each contest's estimate is the largest among its own unconfirmed assertions", inp, got=got, expected=exp)
+                    if total != max(exp.values()):
+                        rep.fail("without style information the audit's estimate is the largest contest estimate", inp, got=total, expected=max(exp.values()))
+    rep.sample({"shape": [2, 1], "estimates": [60, 3, 17], "proved": [False, False, False], "expected": {"c0": 60, "c1": 17}})
